@@ -50,13 +50,17 @@ def op_pattern(o):
         _, name, typ, wrap = o
         inner = '{%s%s}' % (name, (': ' + typ) if typ else '')
         return wrap[0] + inner + wrap[1]
-    if k == 'sub':
+    if k in ('sub', 'gsub'):
         return '{%s: %s}' % (o[1], o[2])
     raise ValueError(k)
 
 
 def rule_text(r):
-    pat = r['m'] + ((' ' + ', '.join(op_pattern(o) for o in r['ops'])) if r['ops'] else '')
+    ops = list(r['ops'])
+    pat = r['m']
+    if ops and ops[0][0] == 'gsub':            # sub-rule parameter glued to the mnemonic: `j{c: cond} ...`
+        pat += op_pattern(ops.pop(0))
+    pat += ((' ' + ', '.join(op_pattern(o) for o in ops)) if ops else '')
     return pat + ' => ' + r['prod']
 
 
@@ -66,7 +70,11 @@ def gen_isa(rng, size_static=True, collide=False):
         isa.subs.append(('reg', [(r, '0x%x' % i) for i, r in enumerate(REGS[:rng.range(2, 5)])]))
     if rng.chance(0.2):
         isa.subs.append(('cond', [('z', '0b00'), ('nz', '0b01'), ('c', '0b10')]))
-    pn = ['x', 'y'] if not collide else ['x', 'y', 'k0', 'k1']
+    if rng.chance(0.3):
+        # a sub-rule set whose alternatives carry expression parameters (the parameter may be named like a symbol of the program)
+        an = rng.choice(['a', 'a', 'k0', 'val']) if collide else 'a'
+        isa.subs.append(('mem', [('[{%s: u8}]' % an, an), ('{%s: u8}' % an, an), ('#{%s}' % an, '%s`8' % an)][:rng.range(1, 3)]))
+    pn = ['x', 'y'] if not collide else ['x', 'y', 'k0', 'k1', 'val']
     n = rng.range(2, 7)
     for _ in range(n):
         m = rng.choice(MNEMONICS)
@@ -81,12 +89,22 @@ def gen_isa(rng, size_static=True, collide=False):
                 prod = '%s @ %s' % (op8, p)
             else:
                 prod = rng.choice(['%s @ %s`8', '%s @ %s`16', '%s @ le(%s`16)', '%s @ %s[7:0]', '%s @ (%s + 1)`8']) % (op8, p)
-            wrap = rng.weighted([(('', ''), 62), (('(', ')'), 10), (('[', ']'), 10), (('#', ''), 10), (('r', ''), 8)])
+            wrap = rng.weighted([(('', ''), 56), (('(', ')'), 10), (('[', ']'), 10), (('#', ''), 10), (('r', ''), 8), (('', 'h'), 6)])
             isa.rules.append(dict(m=m, ops=[('expr', p, typ, wrap)], prod=prod))
+            if wrap == ('r', '') and rng.chance(0.6):
+                # a dedicated rule spelling one register number literally inside the same token
+                isa.rules.append(dict(m=m, ops=[('reg', 'r%d' % rng.choice([1, 7, 15]))], prod='0x%04x' % rng.below(65536)))
         elif k < 55 and isa.subs:
             sub = rng.choice(isa.subs)[0]
-            w = 4 if sub == 'reg' else 2
-            isa.rules.append(dict(m=m, ops=[('sub', 'r', sub), ('expr', 'x', None, ('', ''))], prod='0x%x @ r`%d @ x`8' % (rng.below(16), w)))
+            w = {'reg': 4, 'cond': 2, 'mem': 8}[sub]
+            first = rng.chance(0.6)
+            e1 = ('expr', rng.choice(pn), rng.choice([None, 'u8']), ('', ''))
+            ops = [('sub', 'r', sub), e1] if first else [e1, ('sub', 'r', sub)]
+            isa.rules.append(dict(m=m, ops=ops, prod='0x%x @ r`%d @ %s`8' % (rng.below(16), w, e1[1])))
+            if sub == 'cond' and rng.chance(0.5):
+                # the condition glued to the mnemonic, next to a dedicated longer mnemonic
+                isa.rules.append(dict(m=m, ops=[('gsub', 'c', 'cond'), ('expr', 'a', 'u8', ('', ''))], prod='0x4 @ c`4 @ a'))
+                isa.rules.append(dict(m=m + 'z', ops=[('expr', 'a', 'u16', ('', ''))], prod='0xf0 @ a'))
         elif k < 68:
             isa.rules.append(dict(m=m, ops=[('expr', 'x', None, ('', '')), ('expr', 'y', rng.choice([None, 'u8']), ('', ''))],
                                   prod='%s @ x`8 @ y`8' % op8))
@@ -100,6 +118,20 @@ def gen_isa(rng, size_static=True, collide=False):
             t = rng.choice([3, 0x10, 0x80])
             isa.rules.append(dict(m=m, ops=[('expr', 'x', None, ('', ''))], prod='{ assert(x < %d), 0x%02x }' % (t, rng.below(256)), cascade=True))
             isa.rules.append(dict(m=m, ops=[('expr', 'x', None, ('', ''))], prod='{ assert(x >= %d), 0x%04x }' % (t, rng.below(65536)), cascade=True))
+        elif k < 89 and not size_static:
+            # two candidates for the same text, one statically sized, one whose size depends on a value or whose
+            # constraint reads a symbol of the program
+            v = rng.below(3)
+            if v == 0:
+                isa.rules.append(dict(m=m, ops=[('expr', 'x', None, ('', ''))], prod='0x%04x' % rng.below(65536), cascade=True))
+                isa.rules.append(dict(m=m, ops=[('expr', 'x', None, ('', ''))], prod='x < %d ? 0x%02x : 0x%06x' % (rng.choice([5, 0x10]), rng.below(256), rng.below(1 << 24)), cascade=True))
+            elif v == 1:
+                g = rng.choice(['l0', 'l1', 'k0'])
+                isa.rules.append(dict(m=m, ops=[('expr', 'v', 'u8', ('', ''))], prod='0x02 @ 0x00 @ v', cascade=True))
+                isa.rules.append(dict(m=m, ops=[('expr', 'v', 'u8', ('', ''))], prod='{ assert(%s < %d), 0x01 @ v }' % (g, rng.choice([4, 0x10, 0x100])), cascade=True))
+            else:
+                isa.rules.append(dict(m=m, ops=[('expr', 'x', None, ('', ''))], prod='{ assert(x < 0x20), 0x%02x @ x`8 }' % rng.below(256), cascade=True))
+                isa.rules.append(dict(m=m, ops=[('expr', 'x', None, ('', ''))], prod='0x%02x @ x`16' % rng.below(256), cascade=True))
         elif k < 92 and not size_static:
             # typed-width family
             op = rng.below(255)
@@ -127,8 +159,12 @@ class Prog:
         mt = mnemonic_tokens(r['m'])
         pieces = [('lit', mt[0])] + [('mtok', t) for t in mt[1:]]
         ai = 0
+        ops = list(r['ops'])
+        if ops and ops[0][0] == 'gsub':
+            pieces.append(('glued', args[ai])); ai += 1
+            ops.pop(0)
         first_op = len(pieces)
-        for j, o in enumerate(r['ops']):
+        for j, o in enumerate(ops):
             if j > 0:
                 pieces.append(('sep', ','))
             if o[0] == 'reg':
@@ -143,12 +179,14 @@ class Prog:
                 pieces.append(('arg', args[ai])); ai += 1
         out = []
         for j, (k, t) in enumerate(pieces):
-            if k in ('lit', 'mtok') and style and style.get('case') and rng:
+            if k in ('lit', 'mtok', 'glued') and style and style.get('case') and rng:
                 t = ''.join(c.upper() if rng.chance(0.5) else c.lower() for c in t) if style['case'] == 'mixed' else t.upper()
+            if k == 'punct' and t.isalpha() and style and style.get('case') and rng:
+                t = t.upper()
             gap = ''
             if j > 0:
                 need = (j == first_op) or pieces[j - 1][0] == 'sep'   # after the mnemonic / after a comma: the rule has a blank there
-                if pieces[j - 1][0] == 'punct' or k == 'sep' or (k == 'punct' and pieces[j - 1][0] == 'arg') or k == 'mtok':
+                if pieces[j - 1][0] == 'punct' or k == 'sep' or (k == 'punct' and pieces[j - 1][0] == 'arg') or k in ('mtok', 'glued'):
                     need = False
                 gap = ' ' if need else ''
                 if style and rng and style.get('space'):
@@ -159,6 +197,8 @@ class Prog:
                             gap = ' '
                         elif not (gap[0] in ' \t' or gap.startswith(';*')):
                             gap = ' ' + gap
+                    elif k == 'glued' or (k == 'punct' and t.isalpha()):
+                        gap = ''                     # glued to the previous token: `jz`, `10h`
                     else:
                         # a blank may be inserted at a token boundary where the rule has no whitespace part to satisfy
                         gap = extra if k != 'punct' or pieces[j - 1][0] not in ('lit', 'mtok') else ''
@@ -276,6 +316,8 @@ def gen_prog(rng, size_static=True, collide=False, boundary=False, tame=True):
     consts = ['k%d' % i for i in range(rng.range(0, 3))]
     if collide and rng.chance(0.7):
         consts = consts + [rng.choice(['x', 'y'])]
+    if collide and rng.chance(0.5):
+        consts = consts + [rng.choice(['a', 'val'])]
     allsyms = labels + consts
     # boolean constants (comparisons of symbols), consumed by ternaries
     bools = ['b%d' % i for i in range(rng.weighted([(0, 55), (1, 30), (2, 15)]))]
@@ -310,9 +352,15 @@ def gen_prog(rng, size_static=True, collide=False, boundary=False, tame=True):
         return str(v) if v >= 0 else '-%d' % (-v)
 
     def arg_for(o):
-        if o[0] == 'sub':
+        if o[0] in ('sub', 'gsub'):
+            import re
             sub = [s for s in isa.subs if s[0] == o[2]][0]
-            return rng.choice(sub[1])[0]
+            pat = rng.choice(sub[1])[0]
+            # alternatives with an expression parameter are instantiated with an expression (parenthesised when compound)
+            def inst(mo):
+                e = str(rng.below(100)) if (tame and rng.chance(0.5)) else expr()
+                return e if re.fullmatch(r'[A-Za-z0-9_$]+', e) else '(' + e + ')'
+            return re.sub(r'\{[^}]*\}', inst, pat)
         typ = o[2]
         if typ and boundary and rng.chance(0.6):
             return typed_boundary(typ)
